@@ -66,6 +66,9 @@ func nodeBody(build func(w *World)) func(ex *vsched.Exec) string {
 		if w.Check != nil {
 			w.Check()
 		}
+		if post, ok := ex.Data["post"].(func()); ok {
+			post()
+		}
 		ex.Release()
 		n := w.n
 		vsched.Quiet(func() { n.StopForce() })
@@ -137,7 +140,14 @@ func (p *probe) Init(args ...any) error {
 	return nil
 }
 
+var msgNameHook func(m any) string
+
 func msgName(m any) string {
+	if msgNameHook != nil {
+		if s := msgNameHook(m); s != "" {
+			return s
+		}
+	}
 	switch x := m.(type) {
 	case gen.MessageExitPID:
 		return "exitpid(" + x.Reason.Error() + ")"
